@@ -220,6 +220,20 @@ type result struct {
 	Note       string            `json:"note"`
 }
 
+// waitFor waits (bounded) until pred holds; pred is evaluated under the lock
+func (w *world) waitFor(pred func() bool, d time.Duration) bool {
+	deadline := time.Now().Add(d)
+	for {
+		w.mu.Lock()
+		ok := pred()
+		w.mu.Unlock()
+		if ok || time.Now().After(deadline) {
+			return ok
+		}
+		time.Sleep(500 * time.Microsecond)
+	}
+}
+
 // settle waits until the fakes have seen no call for `quiet`
 func (w *world) settle(quiet time.Duration) {
 	last := w.activity.Load()
@@ -312,10 +326,12 @@ func runCase(c Case, quiet time.Duration) (res result) {
 			}
 			select {
 			case s.in <- recs:
-			default:
+			case <-time.After(3 * time.Second):
 				res.Note = "emit: the previous batch of " + st.Src + " was never read"
 			}
 		case "confirm":
+			// enabled in the model: the engine is on its way to the write, wait for it
+			w.waitFor(func() bool { return len(w.unanswered) > 0 }, 3*time.Second)
 			w.mu.Lock()
 			if len(w.unanswered) > 0 {
 				r := w.unanswered[0]
@@ -328,6 +344,8 @@ func runCase(c Case, quiet time.Duration) (res result) {
 			w.cond.Broadcast()
 			w.mu.Unlock()
 		case "failack":
+			// enabled in the model: a pass is collecting confirmations (or about to)
+			w.waitFor(func() bool { return len(w.expect) > 0 }, 3*time.Second)
 			w.mu.Lock()
 			w.failNext = true
 			w.cond.Broadcast()
